@@ -1,6 +1,7 @@
 import SJ.Props.C04
 import SJ.Props.C04Ap
 import SJ.Props.C04Rv
+import SJ.Props.C04Short
 #print axioms SJ.Props.C04.c04_written_text
 #print axioms SJ.Props.C04.c04_reads_back
 #print axioms SJ.Props.C04.c04_value
@@ -26,3 +27,10 @@ import SJ.Props.C04Rv
 #print axioms SJ.Props.C04Rv.c04_rv_reads_back
 #print axioms SJ.Props.C04Rv.c04_rv_value
 #print axioms SJ.Props.C04Rv.c04_rv_token_not_identity
+#print axioms SJ.Props.C04Short.c04_default_short_float
+#print axioms SJ.Props.C04Short.c04_default_short_text
+#print axioms SJ.Props.C04Short.c04_floats_roundtrip_short
+#print axioms SJ.Props.C04Short.c04_default_short_floats
+#print axioms SJ.Props.C04Short.c04_typed_default_short
+#print axioms SJ.Props.C04Short.c04_default_long_fails
+#print axioms SJ.Props.C04Short.c04_default_sci15_fails
